@@ -96,14 +96,26 @@ def run_model(ctx, prep, with_spec=False):
     return model
 
 
+WIRE_USED = {"req_pq", "req_DH_params", "set_client_DH_params", "ping", "msgs_ack", "p_q_inner_data", "client_DH_inner_data",
+             "resPQ", "server_DH_params_ok", "server_DH_params_fail", "server_DH_inner_data", "dh_gen_ok", "dh_gen_retry", "dh_gen_fail",
+             "rpc_result", "rpc_error", "pong", "new_session_created", "bad_msg_notification", "bad_server_salt"}
+
+
+def split_spec(x):
+    """driver's spec column -> (bytes result, conforms?)"""
+    if x.startswith("ok-nonconforming:"):
+        return "ok:" + x[len("ok-nonconforming:"):], False
+    return x, True
+
+
 def schema_ids():
     """constructor ids written in the schema files (only used to select which cases C02/C13 compare)"""
     import re
     ids = {}
-    for p in schema_paths():
+    for k, p in enumerate(schema_paths()):
         for line in open(p, encoding="latin-1"):
             m = re.match(r"^([A-Za-z0-9_.]+)#([0-9a-fA-F]+)\s", line)
-            if m:
+            if m and (k == 0 or m.group(1) in WIRE_USED):   # mtproto.tl: the wire-used definitions only
                 ids[int(m.group(2), 16)] = (m.group(1), line.strip())
     return ids
 
